@@ -144,6 +144,9 @@ static int runScenario(const Scenario &sc, int fd)
     else if (sc.site == "opened") { siteOp = "opened 0 1"; w.c->openSession(false, true); }
     else if (sc.site == "closed") { siteOp = "closed 0"; w.c->closeSession(false); }
     else if (sc.site == "destroy") { siteOp = "destroy"; auto *c = w.c; delete c; w.c = nullptr; }
+    // a request started while the requests of the OLD session are being cancelled belongs to the new session, which lives:
+    // it must not be completed (cancelled) together with them
+    bool spuriousCancel = sc.site == "opened" && (sc.body == "new" || sc.body == "same") && w.bodiesRun > 0 && w.counts.back() != 0;
     put(siteOp + (w.bodyOp.empty() ? "" : " ;; " + w.bodyOp));
     // the end of every history: the client goes away; whatever is still pending must complete now
     if (w.c) { auto *c = w.c; delete c; w.c = nullptr; }
@@ -158,11 +161,14 @@ static int runScenario(const Scenario &sc, int fd)
     }
     out += "#" + line + "\n";
     (void)!write(fd, out.c_str(), out.size());
-    return twice ? 2 : lost ? 1 : 0;
+    return twice ? 2 : lost ? 1 : spuriousCancel ? 4 : 0;
 }
 
 int main(int argc, char **argv)
 {
+    // std::hash<QString> is seeded per process: fix the seed so that the iteration order of the request table (which decides how
+    // today's iterate-while-mutating code misbehaves) is the same in every run
+    qSetGlobalQHashSeed(0);
     QCoreApplication app(argc, argv);
     vh::Args a = vh::parseArgs(argc, argv);
     (void)a;
@@ -212,6 +218,8 @@ int main(int argc, char **argv)
         } else if (WIFEXITED(st) && WEXITSTATUS(st) == 1) {
             vh::oracleFail("C07:reent:request-lost", name + " completions per request (n:count:how) [" + out + "]");
             vh::stat("reent_lost");
+        } else if (WIFEXITED(st) && WEXITSTATUS(st) == 4) {
+            vh::oracleFail("C07:reent:new-request-cancelled", name + ": the request started from inside the continuation was cancelled together with the old session's requests [" + out + "]");
         } else if (WIFEXITED(st) && WEXITSTATUS(st) == 2) {
             vh::oracleFail("C07:reent:completed-twice", name + " [" + out + "]");
         } else if (WIFEXITED(st) && WEXITSTATUS(st) == 0) {
